@@ -4,9 +4,10 @@ import Driver.Filter
 import Driver.Block
 import Driver.Snappy
 import Driver.IterStack
+import Driver.Table
 open Lcdb Drv
 
-def handlers : List (List String → String) := [handleCore, handleFormats, handleFilter, handleBlock, handleSnappy, handleIterStack]
+def handlers : List (List String → String) := [handleCore, handleFormats, handleFilter, handleBlock, handleSnappy, handleIterStack, handleTable]
 
 def handle (line : String) : String :=
   let f := line.trimAscii.toString.splitOn " "
